@@ -71,6 +71,10 @@ def run(chk, orch):
             # a single-file and a multi-file experiment; the novel isoforms of the latter are supported by one file only
             ({"seed": 35, "n_chr": 2, "n_exp": 2, "exp_mode": "same", "exp_bams": [1, 2], "novel": 2, "novel_cov": 6,
               "novel_one_file": 1, "genes_per_chr": 3}, {"read_group": "file_name"}),
+            # the first experiment comes with short reads, the second does not (YAML only): intergenic long reads that are 4 bp
+            # off at a splice site are corrected in the first experiment only
+            ({"seed": 37, "n_chr": 3, "n_exp": 2, "exp_mode": "same", "drop_chr_annotation": 1, "illumina": [1, 0], "novel": 1,
+              "genes_per_chr": 3, "paralogs": 0}, {"yaml_only": True}),
             ({"seed": 36, "n_chr": 3, "n_exp": 2, "exp_mode": "split", "novel": 3, "novel_cov": 6, "pre_ids": 1,
               "genes_per_chr": 3, "paralogs": 1}, {}),
         ]
@@ -101,7 +105,7 @@ def run(chk, orch):
                 perms = perms[:2] if n == 2 else [perms[0], perms[3], perms[5]]
             ci = 0
             for perm in perms:
-                for mode in (["yaml", "bam_list"] if not quick or perm == perms[0] else ["yaml"]):
+                for mode in (["yaml", "bam_list"] if (not quick or perm == perms[0]) and not opts.get("yaml_only") else ["yaml"]):
                     for w in ([1, 2, 4] if not quick else [1, 3]):
                         cell = dict(common.GOLDEN_CELL, threads=w, hashseed=chk.rng.choice([0, 1, 2]),
                                     sched={"policy": chk.rng.choice(common.POLICIES), "seed": chk.rng.randrange(1000)})
